@@ -27,12 +27,15 @@ structure Cfg where
   popSkipsStaleWriter : Bool
   /-- cfun_channel_close wakes a local waiter only if its sched_id is current -/
   closeChecksSched : Bool
+  /-- the run phase of janet_loop1 does `task.fiber->sched_id++` after the stale-task filter: a fiber's generation
+      advances when it is scheduled AND when its task is resumed -/
+  resumeBumps : Bool
   deriving Repr, DecidableEq
 
 /-- every check present, operators as in the reference source -/
-def Cfg.good : Cfg := ⟨true, true, true, true, true⟩
+def Cfg.good : Cfg := ⟨true, true, true, true, true, true⟩
 /-- the pinned tree before any fix -/
-def Cfg.pinned : Cfg := ⟨true, true, false, false, false⟩
+def Cfg.pinned : Cfg := ⟨true, true, false, false, false, false⟩
 
 /-- Janet values that occur as results of channel operations (items are natural numbers = their ghost ids). -/
 inductive Val where
@@ -331,7 +334,7 @@ def receivedOf (f : Nat) : Val → List (Nat × Nat)
   | _ => []
 
 /-- one iteration of the run phase of janet_loop1 -/
-def loopRunTask (w : World) : World × Outcome :=
+def loopRunTask (cfg : Cfg) (w : World) : World × Outcome :=
   match w.runq with
   | [] => (w, .noop)
   | t :: rest =>
@@ -341,15 +344,19 @@ def loopRunTask (w : World) : World × Outcome :=
     let w := setFiber w t.fiber fb'
     if t.expected ≠ fb.sched then
       ({ w with ghost := { w.ghost with dropped := w.ghost.dropped ++ [t] } }, .skipped)
-    else if !fiberCanResume fb then (w, .resumedDead t.fiber)
     else
-      let w := setFiber w t.fiber { fb' with status := .alive }
-      match t.sig with
-      | .ok =>
-        ({ w with current := some t.fiber,
-                  ghost := { w.ghost with received := w.ghost.received ++ receivedOf t.fiber t.value } },
-         .resumed t.fiber t.value)
-      | .error => ({ w with current := some t.fiber }, .resumedErr t.fiber t.value)
+      -- `task.fiber->sched_id++` (when the source has it): before janet_continue_signal, whatever the fiber's status
+      let fb' : Fiber := { fb' with sched := if cfg.resumeBumps then fb.sched + 1 else fb.sched }
+      let w := setFiber w t.fiber fb'
+      if !fiberCanResume fb then (w, .resumedDead t.fiber)
+      else
+        let w := setFiber w t.fiber { fb' with status := .alive }
+        match t.sig with
+        | .ok =>
+          ({ w with current := some t.fiber,
+                    ghost := { w.ghost with received := w.ghost.received ++ receivedOf t.fiber t.value } },
+           .resumed t.fiber t.value)
+        | .error => ({ w with current := some t.fiber }, .resumedErr t.fiber t.value)
 
 /-- add_timeout: the timer heap as a list ordered by deadline (the harness keeps deadlines distinct, so the heap's
     pop order is the order of this list) -/
@@ -405,7 +412,7 @@ inductive Action where
 
 def step (cfg : Cfg) (w : World) (a : Action) : World × Outcome :=
   match w.current, a with
-  | none, .runTask => loopRunTask w
+  | none, .runTask => loopRunTask cfg w
   | none, .timers => (loopTimers w, .done)
   | none, .poll => (loopPollDrop w, .done)
   | some _, .go g =>
